@@ -41,9 +41,12 @@ def generate(ctx):
             ref_row, _ = anno.make_msa(rng, genome, 1, with_insertions=False)
             rows = [gen.mutate(rng, genome, p_sub=rng.choice([0.25, 0.4]), p_amb=0.02, p_gap=0.0, p_lower=0.0).replace("?", "N") for _ in range(rng.randint(1, 3))]
         else:
-            genome, feats, ref_row, rows = vcommon.random_setup(rng, allow_unnamed=(suffix == "gff"), mod3_segments=True)
+            genome, feats, ref_row, rows = vcommon.random_setup(rng, allow_unnamed=(suffix == "gff"), mod3_segments=True,
+                                                                rotate=0.3 if suffix == "gb" else 0.0)     # origin-spanning joins: GenBank only
         if not feats:
             continue
+        if rng.random() < 0.35:
+            rows = vcommon.wobble_codons(rng, genome, feats, ref_row, rows)
         mode = rng.choice(["first", "middle", "last", "anno"])
         if mode == "anno":
             ref_row, rows = anno.make_msa(rng, genome, len(rows), with_insertions=False)
